@@ -416,6 +416,9 @@ var cheapScalarKinds = []string{"string", "string", "string", "int", "int32", "i
 func maybeNamed(t *rapid.T, ty desc.T) desc.T {
 	if _, ok := lib.NamedScalars[ty.K]; ok && ty.Name == "" && rapid.IntRange(0, 4).Draw(t, "namedScalar") == 0 {
 		ty.Name = "My"
+		if _, ok := desc.StdNamed[ty.K]; ok && rapid.IntRange(0, 2).Draw(t, "stdNamed") == 1 {
+			ty.Name = "std" // a defined scalar type of the standard library (time.Duration, time.Month): scalars like any other
+		}
 	}
 	return ty
 }
